@@ -147,6 +147,10 @@ class Protocol(metaclass=InlineDocstring):
         ]
         return '\n'.join(res)
 
+    def __call__(self):
+        """Returns protocol in the RPC-like format (same as `shell.protocols[hash]()`)."""
+        return self._proto
+
     def __iter__(self):
         return iter(proto_to_files(self._proto))
 
